@@ -35,11 +35,51 @@ def run(chk, repo: Repo):
     chk.rule("C01-R5", "conditioning replaces every factor by a conditioned copy, then reduces (C11-R3)", floor=3)
     _r1(chk, repo)
     _r2(chk, repo)
+    _r2_constant_writers(chk, repo)
     _r3_r4(chk, repo)
     # R5 shared with C11-R3
     from . import c11
     from .common import shadow
     shadow(chk, "C11-R3", "C01-R5", lambda c: c11._r3(c, repo))
+
+
+def _r2_constant_writers(chk, repo):
+    """who may write the folded constant: `_constant` starts at 0 in Density.__init__ and is only ever *added to* (x._constant = x._constant + c / +=,
+    temporaries resolved). Any other store resets or overwrites what an earlier reduction folded in - a later copy / conditioning of the reduced density
+    then loses the log-densities of the variables that were fixed before."""
+    from ..index import enclosing_class
+    from ..flow import Expander
+    n = 0
+    for m in repo.modules.values():
+        for fn in [x for x in ast.walk(m.tree) if isinstance(x, ast.FunctionDef)]:
+            if not any(isinstance(t, ast.Attribute) and t.attr == "_constant" and isinstance(t.ctx, ast.Store) for t in ast.walk(fn)):
+                continue
+            ec = enclosing_class(fn)
+            ci = next((c for c in m.classes.values() if c.node is ec), None) if ec is not None else None
+            ex = Expander(canon_fn(repo, ci, fn, 1, rel=m.rel))
+            for nd in ex.cfg.nodes:
+                a = nd.ast
+                if nd.kind != "stmt" or not isinstance(a, (ast.Assign, ast.AugAssign)):
+                    continue
+                tgts = a.targets if isinstance(a, ast.Assign) else [a.target]
+                for t in tgts:
+                    if not (isinstance(t, ast.Attribute) and t.attr == "_constant"):
+                        continue
+                    n += 1
+                    where = f"{m.rel}:{(ec.name + '.') if ec else ''}{fn.name}"
+                    obj = path_of(t.value)
+                    if isinstance(a, ast.AugAssign):
+                        ok, why = isinstance(a.op, ast.Add), "added to"
+                    else:
+                        v = ex.expand(a.value, nd)
+                        init0 = fn.name == "__init__" and obj == "self" and isinstance(v, ast.Constant) and v.value == 0
+                        adds = isinstance(v, ast.BinOp) and isinstance(v.op, ast.Add) and f"{obj}._constant" in (path_of(v.left), path_of(v.right))
+                        ok, why = init0 or adds, "initialised to 0 in the constructor" if init0 else "added to"
+                    chk.add("C01-R2", f"{where}/_constant-store", ok, f"{m.rel}:{getattr(a, 'lineno', fn.lineno)}", f"`{obj}._constant` is {why}",
+                            f"`{unparse(a)[:90]}` overwrites the constant a reduced density carries (the log-densities of the variables fixed so far): copying or "
+                            f"conditioning such a density again drops them, so conditioning in several steps no longer equals the joint log-density", a)
+    if n < 2:
+        raise AnchorError(f"{n} stores of `_constant` found, 2 confirmed by hand (Density.__init__, _add_constants_to_density)")
 
 
 def _one(nodes, what):
@@ -106,6 +146,21 @@ def _r1(chk, repo):
             ok = any(lab == "F" and xt(t.ast, t) == pn(f"{K} in kwargs") for t, lab in g.guards_of(st[0]))
         chk.decide("C01-R1", f"{ci.qual}.{fname}/double", ok, rec, site(repo, f), "a variable given positionally and by keyword is refused",
                    "a variable can be passed both positionally and by keyword", f)
+        # which name a positional value is filed under: the i-th of the CURRENT parameter names (joint: get_parameter_names(), which shrinks as
+        # variables are fixed; distribution: the conditioning variables followed by the main parameter), and the value is the i-th argument
+        if rec:
+            loops = [n for n in g.nodes if n.kind == "iter" and pn(n.ast.iter) == "enumerate(args)" and isinstance(n.ast.target, ast.Tuple) and len(n.ast.target.elts) == 2]
+            idx, el = (pn(loops[0].ast.target.elts[0]), pn(loops[0].ast.target.elts[1])) if len(loops) == 1 else (None, None)
+            V = xt(st[0].ast.value, st[0])
+            if ci is jd:
+                want = {pn(f"self.get_parameter_names()[{idx}]")}
+            else:
+                cv_ = func_params(f)[1]
+                want = {pn(f"{w}[{idx}]") for w in (f"copy({cv_})", f"list({cv_})", f"{cv_}.copy()", f"({cv_}+['_main_parameter'])", f"{cv_}[:]")}
+            chk.decide("C01-R1", f"{ci.qual}.{fname}/order", K in want and V == el, idx is not None, site(repo, f),
+                       "the i-th positional value is filed under the i-th current parameter name",
+                       f"positional values are filed under `{K}` (value `{V}`), not under the i-th of the object's current parameter names: after some variables "
+                       f"are fixed, positional evaluation / conditioning addresses the wrong variables", f)
         if ci is dist:
             cv = func_params(f)[1]
             gs = [(xt(t.ast, t), lab) for t, lab in g.guards_of(st[0])] if rec else []
